@@ -364,8 +364,25 @@ fn own_units(tier: Tier) -> Vec<Unit> {
     units
 }
 
+fn wrap_via_run(mut u: Unit) -> Unit {
+    let inner = u.run;
+    u.name = format!("{}/through-run", u.name);
+    u.domain = format!("the same cases, each step executed by the real Cpu::run() (one loop iteration; the run-loop hook restores the case's registers after run()'s own set-up and ends the run afterwards), so that run()'s error path handles every failing instruction: {}", u.domain);
+    u.run = Box::new(move |ctx: &mut Ctx, chunk: u64| {
+        ctx.via_run = true;
+        (inner)(ctx, chunk);
+        ctx.via_run = false;
+    });
+    u
+}
+
 pub fn c15(tier: Tier, seed: u64) -> Prop {
     let mut units = own_units(tier);
+    for u in own_units(tier) {
+        if matches!(u.name.as_str(), "first-words" | "placements" | "two-step") {
+            units.push(wrap_via_run(u));
+        }
+    }
     // ---- (2) the case streams of the semantic properties, under "no unwind" only
     let thorough = tier == Tier::Thorough;
     let borrowed: Vec<(&str, Vec<Unit>)> = vec![
